@@ -120,7 +120,7 @@ const BIG_CLASSES: usize = 1100;
 /// capacities C of a hypothetical bounded memo inside the shared handle: the handle first serves C distinct queries
 /// of one kind (so that a ring / LRU of that capacity is exactly full and its oldest entry is the next victim), then
 /// one thread re-asks the oldest ones while the other asks new ones
-pub const WARM_CAPS: [usize; 10] = [8, 16, 32, 64, 100, 128, 256, 512, 1000, 1024];
+pub const WARM_CAPS: [usize; 11] = [0, 8, 16, 32, 64, 100, 128, 256, 512, 1000, 1024];
 static BIG: std::sync::atomic::AtomicBool = std::sync::atomic::AtomicBool::new(false);
 static WARM: std::sync::atomic::AtomicUsize = std::sync::atomic::AtomicUsize::new(0);
 static WARM_KIND: std::sync::atomic::AtomicUsize = std::sync::atomic::AtomicUsize::new(0);
@@ -1043,7 +1043,7 @@ pub fn run(tier: Tier) -> i32 {
         for subject in 0..2 {
             let oldest = WARM_OP0 + kind * 4 + subject * 2;
             for &c in WARM_CAPS.iter() {
-                if !t && ![16usize, 64, 256, 1024].contains(&c) {
+                if !t && ![0usize, 16, 64, 256, 1024].contains(&c) {
                     continue;
                 }
                 configs.push((vec![oldest, oldest + 1], 3, c));
